@@ -1,7 +1,10 @@
 A = "vsg/vhdlFile/extract/get_tokens_at_beginning_of_line_matching.py"
 M = "vsg/vhdlFile/extract/get_tokens_matching.py"
 S = "vsg/vhdlFile/extract/get_sequence_of_tokens_matching.py"
+B = "vsg/vhdlFile/extract/get_tokens_bounded_by.py"
 MUTANTS = [
+    ("bounded-by-start-of-previous", B, "        oToi = tokens.New(iStart, iStartLine, lTemp)", "        oToi = tokens.New(iStart - 1, iStartLine, lTemp)"),
+    ("bounded-by-line-of-end", B, "        iStartLine = oTokenMap.get_line_number_of_index(iStart)", "        iStartLine = oTokenMap.get_line_number_of_index(iEnd)"),
     ("bol-start-off-by-one", A, "tokens.New(iIndex - 1, iLine, lAllTokens[iIndex - 1 : iIndex + 1])", "tokens.New(iIndex, iLine, lAllTokens[iIndex - 1 : iIndex + 1])"),
     ("bol-three-tokens", A, "lAllTokens[iIndex - 1 : iIndex + 1])", "lAllTokens[iIndex - 1 : iIndex + 2])"),
     ("matching-neighbour-token", M, "[lAllTokens[iIndex]]", "[lAllTokens[iIndex - 1]]"),
